@@ -46,7 +46,7 @@ impl Ctx {
             start: Instant::now(),
             par: driver::parallelism(),
             soft_deadline: Instant::now() + budget,
-            session_timeout: Duration::from_secs(600),
+            session_timeout: Duration::from_secs(1800),
         }
     }
     pub fn out_of_time(&self) -> bool {
